@@ -26,11 +26,13 @@ def valStr : V → String
   | .ty n => s!"(t {n})"
   | .str n => s!"(s {n})"
   | .al nm n => s!"(al {hexOfString nm} {n})"
+  | .core nm => s!"(core {hexOfString nm})"
 
-/-- parents of the tree nodes; `(p P)` with -1 ≤ P < i, `(f P)` with 0 ≤ P < i -/
+/-- parents of the tree nodes; `(p P)` with -1 ≤ P < i, `(f P)` with 0 ≤ P < i; `(st)` (the static loader) as node 0 only -/
 def treeOf (nodes : List Sexp) : Option (List (Option Nat)) :=
   let rec go (i : Nat) : List Sexp → Option (List (Option Nat))
     | [] => some []
+    | .list [.atom "st"] :: rest => if i = 0 then (go 1 rest).map (none :: ·) else none
     | .list [.atom kind, p] :: rest => do
       let pi ← p.int?
       if kind ≠ "p" ∧ kind ≠ "f" then none
@@ -53,6 +55,26 @@ def keyPred (p : String) (key : Key) : Bool :=
   match p with
   | "qual" => hasColons (parts.headD "").toList
   | "type" => (parts.tail.headD "") == "type"
+  | _ => true
+
+def hasStatic : List Sexp → Bool
+  | .list [.atom "st"] :: _ => true
+  | _ => false
+
+/-- the core types the lines may name (the harness checks the static loader agrees) -/
+def coreNames : List String := ["integer"]
+
+/-- the entries of the static loader among the names of the line -/
+def staticEnts (ops : List Op) : Ents :=
+  let ks := ops.filterMap fun o => match o with
+    | .load _ n | .define _ n _ | .has _ n | .get _ n =>
+      if n.auth = runtimeAuthority ∧ lower n.ns = "type" ∧ coreNames.contains (lower (stripColons n.name)) then some (canon n, lower (stripColons n.name)) else none
+    | .discover _ _ => none
+  (ks.eraseDups).map fun (k, nm) => (k, some (V.core nm))
+
+/-- with a static node 0: it may only be asked, never loaded through or defined in -/
+def addressOK (st : Bool) : Op → Bool
+  | .load l _ | .define l _ _ => !(st && l == 0)
   | _ => true
 
 def stepOf (nl : Nat) : Sexp → Option Op
@@ -108,8 +130,12 @@ def exec : List Sexp → String
       match steps.mapM (stepOf ps.length) with
       | none => "bad-op"
       | some ops =>
-        let (s, as) := run (Sys.init ps) ops
-        " ; ".intercalate (as.map ansStr) ++ " |" ++ dump s
+        let st := hasStatic nodes
+        if !(ops.all (addressOK st)) then "bad-op"
+        else
+          let s0 := if st then (Sys.init ps).setEnts 0 (staticEnts ops) else Sys.init ps
+          let (s, as) := run s0 ops
+          " ; ".intercalate (as.map ansStr) ++ " |" ++ dump s
   | _ => "bad-op"
 
 end C12
